@@ -33,10 +33,20 @@ func waitFor(n string) {
 }
 
 func daemonMain() {
+	bornTo := os.Getppid()
 	touch("daemon.started", fmt.Sprintf("%d %d", os.Getpid(), os.Getppid()))
 	touch("marker", "written before Done()")
 	if exists("daemon.hold") {
 		waitFor("daemon.release")
+	}
+	if os.Getppid() != bornTo {
+		// the launcher has gone without waiting for Done(): Done() would signal whoever adopted
+		// this process (init), which a test must not do. The coordinator has seen Launch return.
+		touch("daemon.launcher-gone-before-done", "")
+		for i := 0; i < 60000 && !exists("daemon.stop"); i++ {
+			time.Sleep(time.Millisecond)
+		}
+		return
 	}
 	touch("daemon.done-calling", "")
 	launcher := os.Getppid()
